@@ -68,7 +68,7 @@ def run(ctx):
                 compiled += 1
             else:
                 rejected += 1
-    if rejected == 0 or compiled == 0:
+    if (rejected == 0 or compiled == 0) and not ctx.violations:
         raise Broken("vacuous: %d rejected, %d compiled" % (rejected, compiled))
     ctx.coverage = {
         "states": states, "transitions": states, "traces_validated_against_impl": len(pl.cases), "exhaustive": ctx.quick(),
